@@ -15,8 +15,8 @@ use std::panic::{catch_unwind, AssertUnwindSafe};
 
 pub fn cases(t: Tier) -> u64 {
     match t {
-        Tier::Quick => 400,
-        Tier::Thorough => 6000,
+        Tier::Quick => 640,
+        Tier::Thorough => 8000,
     }
 }
 
